@@ -48,7 +48,7 @@ Step(ev) ==
      /\ ev.descend = (IF Len(stack') > Len(stack) THEN "dfs" ELSE IF Len(queue') > Len(queue) THEN "enqueue" ELSE "no")
   \/ ev.ev = "break" /\ LimitBreak
   \/ ev.ev = "leave" /\ stack # <<>> /\ Top.dir = NodeOf(ti, ev.ino) /\ EndOfDir
-  \/ ev.ev = "dequeue" /\ queue # <<>> /\ Head(queue) = NodeOf(ti, ev.ino) /\ Dequeue
+  \/ ev.ev = "dequeue" /\ queue # <<>> /\ Head(queue)[1] = NodeOf(ti, ev.ino) /\ Dequeue
   \/ ev.ev = "drained" /\ queue = <<>> /\ Dequeue
   \/ ev.ev = "done" /\ ri = Len(roots) /\ NextRoot
 
